@@ -37,6 +37,7 @@ def maskOf (k : Nat) (kind : String) : Option Nat :=
     | some f, some pm => if f < k ∧ pm < 1000 then some (allHonest f) else none
     | _, _ => none
   | ["prime", n] => n.toNat?.map fun _ => allHonest (k - 1)   -- the tail is not in the datagram
+  | ["zerocut", n] => n.toNat?.map fun _ => allHonest (k - 1) -- zero bytes cut off the final MAC
   | ["splice"] => some 0
   | _ => none
 
